@@ -16,11 +16,12 @@ CONSTANTS NW, NR,        \* writer / reader goroutines
           UseWMu, UseRMu, UseLk,   \* FALSE: the mutex is not taken (model mutants)
           DeobfInLock,   \* FALSE: readMutex released before Deobfuscate (model mutant)
           JunkRetry,     \* FALSE: a rejected datagram ends ReadFrom with n = 0 (model mutant)
+          KeyOwned,      \* FALSE: the obfuscator keeps the caller's key slice instead of a copy (model mutant)
           UnlockOnRetry  \* FALSE: the retry branch re-enters the loop with readMutex still held (model mutant: self-deadlock)
 
-VARIABLES pc, loc, wmu, rmu, lk, writeBuf, readBuf, keyInput, inbox, nW, nI, nJ, done, mon, hist
+VARIABLES pc, loc, wmu, rmu, lk, writeBuf, readBuf, keyInput, psk, inbox, nW, nI, nJ, done, mon, hist
 
-vars == <<pc, loc, wmu, rmu, lk, writeBuf, readBuf, keyInput, inbox, nW, nI, nJ, done, mon, hist>>
+vars == <<pc, loc, wmu, rmu, lk, writeBuf, readBuf, keyInput, psk, inbox, nW, nI, nJ, done, mon, hist>>
 
 Writers == 1..NW
 Readers == (NW + 1)..(NW + NR)
@@ -28,7 +29,9 @@ Procs   == Writers \cup Readers
 MaxLen  == 2                                   \* payload bytes in the model
 
 SaltSeq(s) == <<s, s, s, s, s, s, s, s>>
-KSf(s)     == [i \in 1..KeyLen |-> (s * 7 + i * 3) % 256]
+K0 == 1                                        \* the key the socket was wrapped with
+KSk(k, s)  == [i \in 1..KeyLen |-> (k * 13 + s * 7 + i * 3) % 256]
+KSf(s)     == KSk(K0, s)                        \* the oracle: BLAKE2b-256(key at wrap time || salt)
 PayOf(id)  == IF id % 2 = 1 THEN <<id * 16 + 1>> ELSE <<id * 16 + 2, 200 + id>>
 XorSeq(p, k) == [i \in 1..Len(p) |-> p[i] ^^ k[((i - 1) % KeyLen) + 1]]
 At(s, i)   == IF i <= Len(s) THEN s[i] ELSE 0          \* stale buffer bytes read as 0
@@ -46,12 +49,12 @@ WStart(w) == /\ pc[w] = "idle" /\ nW < MaxW
              /\ loc' = [loc EXCEPT ![w] = [pid |-> nW + 1, pay |-> PayOf(nW + 1), key |-> <<>>, iid |-> 0, n |-> 0, out |-> <<>>]]
              /\ pc' = [pc EXCEPT ![w] = "wLock"]
              /\ hist' = Append(hist, <<"W", Len(PayOf(nW + 1))>>)
-             /\ UNCHANGED <<wmu, rmu, lk, writeBuf, readBuf, keyInput, inbox, nI, nJ, done, mon>>
+             /\ UNCHANGED <<psk, wmu, rmu, lk, writeBuf, readBuf, keyInput, inbox, nI, nJ, done, mon>>
 
 WLock(w) == /\ pc[w] = "wLock"
             /\ IF UseWMu THEN wmu = 0 /\ wmu' = w ELSE UNCHANGED wmu
             /\ pc' = [pc EXCEPT ![w] = "oLock"]
-            /\ UNCHANGED <<loc, rmu, lk, writeBuf, readBuf, keyInput, inbox, nW, nI, nJ, done, mon, hist>>
+            /\ UNCHANGED <<psk, loc, rmu, lk, writeBuf, readBuf, keyInput, inbox, nW, nI, nJ, done, mon, hist>>
 
 \* o.lk.Lock(); RandSrc.Read(out[:8]); copy(keyInput[len(PSK):], salt)
 OSalt(w) == /\ pc[w] = "oLock"
@@ -60,21 +63,21 @@ OSalt(w) == /\ pc[w] = "oLock"
                  /\ writeBuf' = [writeBuf EXCEPT !.salt = s]
                  /\ keyInput' = s
             /\ pc' = [pc EXCEPT ![w] = "oHash"]
-            /\ UNCHANGED <<loc, wmu, rmu, readBuf, inbox, nW, nI, nJ, done, mon, hist>>
+            /\ UNCHANGED <<psk, loc, wmu, rmu, readBuf, inbox, nW, nI, nJ, done, mon, hist>>
 
 \* key := blake2b.Sum256(keyInput); o.lk.Unlock()
 OHash(w) == /\ pc[w] = "oHash"
-            /\ loc' = [loc EXCEPT ![w].key = KSf(keyInput)]
+            /\ loc' = [loc EXCEPT ![w].key = KSk(psk, keyInput)]
             /\ lk' = IF lk = w THEN 0 ELSE lk
             /\ pc' = [pc EXCEPT ![w] = "oXor"]
-            /\ UNCHANGED <<wmu, rmu, writeBuf, readBuf, keyInput, inbox, nW, nI, nJ, done, mon, hist>>
+            /\ UNCHANGED <<psk, wmu, rmu, writeBuf, readBuf, keyInput, inbox, nW, nI, nJ, done, mon, hist>>
 
 \* out[i+8] = in[i] ^ key[i%32]
 OXor(w) == /\ pc[w] = "oXor"
            /\ LET x == XorSeq(loc[w].pay, loc[w].key) IN
                 writeBuf' = [writeBuf EXCEPT !.body = [i \in 1..MaxLen |-> IF i <= Len(x) THEN x[i] ELSE @[i]]]
            /\ pc' = [pc EXCEPT ![w] = "wInner"]
-           /\ UNCHANGED <<loc, wmu, rmu, lk, readBuf, keyInput, inbox, nW, nI, nJ, done, mon, hist>>
+           /\ UNCHANGED <<psk, loc, wmu, rmu, lk, readBuf, keyInput, inbox, nW, nI, nJ, done, mon, hist>>
 
 \* c.Conn.WriteTo(c.writeBuf[:nn], addr): the inner socket sees the buffer as it is now
 WInner(w) == /\ pc[w] = "wInner"
@@ -82,25 +85,25 @@ WInner(w) == /\ pc[w] = "wInner"
                     e == WireEv("WireOut", "pid", loc[w].pid, wire, loc[w].pay, [kind |-> "out"])
                 IN mon' = MonStep(mon, e, 0)
              /\ pc' = [pc EXCEPT ![w] = "wUnlock"]
-             /\ UNCHANGED <<loc, wmu, rmu, lk, writeBuf, readBuf, keyInput, inbox, nW, nI, nJ, done, hist>>
+             /\ UNCHANGED <<psk, loc, wmu, rmu, lk, writeBuf, readBuf, keyInput, inbox, nW, nI, nJ, done, hist>>
 
 WUnlock(w) == /\ pc[w] = "wUnlock"
               /\ wmu' = IF wmu = w THEN 0 ELSE wmu
               /\ mon' = MonStep(mon, [ev |-> "WriteRet", scn |-> 0, pid |-> loc[w].pid, plen |-> Len(loc[w].pay),
                                       n |-> Len(loc[w].pay), errNil |-> TRUE], 0)
               /\ pc' = [pc EXCEPT ![w] = "idle"]
-              /\ UNCHANGED <<loc, rmu, lk, writeBuf, readBuf, keyInput, inbox, nW, nI, nJ, done, hist>>
+              /\ UNCHANGED <<psk, loc, rmu, lk, writeBuf, readBuf, keyInput, inbox, nW, nI, nJ, done, hist>>
 
 \* ------------------------------------------------------------------ reader: conn.go:73-88, salamander.go:74-86
 RStart(r) == /\ pc[r] = "idle" /\ ~done
              /\ pc' = [pc EXCEPT ![r] = "rLock"]
              /\ hist' = Append(hist, <<"R", 0>>)
-             /\ UNCHANGED <<loc, wmu, rmu, lk, writeBuf, readBuf, keyInput, inbox, nW, nI, nJ, done, mon>>
+             /\ UNCHANGED <<psk, loc, wmu, rmu, lk, writeBuf, readBuf, keyInput, inbox, nW, nI, nJ, done, mon>>
 
 RLock(r) == /\ pc[r] = "rLock"
             /\ IF UseRMu THEN rmu = 0 /\ rmu' = r ELSE UNCHANGED rmu
             /\ pc' = [pc EXCEPT ![r] = "rInner"]
-            /\ UNCHANGED <<loc, wmu, lk, writeBuf, readBuf, keyInput, inbox, nW, nI, nJ, done, mon, hist>>
+            /\ UNCHANGED <<psk, loc, wmu, lk, writeBuf, readBuf, keyInput, inbox, nW, nI, nJ, done, mon, hist>>
 
 ReadRetEv(r, n, out) == [ev |-> "ReadRet", scn |-> 0, iid |-> loc[r].iid, n |-> n, errNil |-> TRUE,
                          olen |-> Len(out), out |-> out, otail |-> <<>>, pyEq |-> TRUE]
@@ -119,7 +122,7 @@ RInner(r) == /\ pc[r] = "rInner" /\ inbox # <<>>
                           /\ rmu' = IF ~DeobfInLock /\ rmu = r THEN 0 ELSE rmu
                           /\ pc' = [pc EXCEPT ![r] = "dCheck"]
                           /\ UNCHANGED mon
-             /\ UNCHANGED <<wmu, lk, writeBuf, keyInput, nW, nI, nJ, done, hist>>
+             /\ UNCHANGED <<psk, wmu, lk, writeBuf, keyInput, nW, nI, nJ, done, hist>>
 
 \* Deobfuscate: outLen <= 0 -> 0 (and the loop retries); else o.lk.Lock(); copy salt into keyInput
 DCheck(r) == /\ pc[r] = "dCheck"
@@ -133,13 +136,13 @@ DCheck(r) == /\ pc[r] = "dCheck"
                      /\ keyInput' = At(readBuf, 1)
                      /\ pc' = [pc EXCEPT ![r] = "dHash"]
                      /\ UNCHANGED <<rmu, mon>>
-             /\ UNCHANGED <<loc, wmu, writeBuf, readBuf, inbox, nW, nI, nJ, done, hist>>
+             /\ UNCHANGED <<psk, loc, wmu, writeBuf, readBuf, inbox, nW, nI, nJ, done, hist>>
 
 DHash(r) == /\ pc[r] = "dHash"
-            /\ loc' = [loc EXCEPT ![r].key = KSf(keyInput)]
+            /\ loc' = [loc EXCEPT ![r].key = KSk(psk, keyInput)]
             /\ lk' = IF lk = r THEN 0 ELSE lk
             /\ pc' = [pc EXCEPT ![r] = "dXor"]
-            /\ UNCHANGED <<wmu, rmu, writeBuf, readBuf, keyInput, inbox, nW, nI, nJ, done, mon, hist>>
+            /\ UNCHANGED <<psk, wmu, rmu, writeBuf, readBuf, keyInput, inbox, nW, nI, nJ, done, mon, hist>>
 
 \* out[i] = in[8+i] ^ key[i%32]  over c.readBuf[:n] as it is now
 DXor(r) == /\ pc[r] = "dXor"
@@ -147,13 +150,13 @@ DXor(r) == /\ pc[r] = "dXor"
                   body == [i \in 1..ol |-> At(readBuf, SaltLen + i)]
               IN loc' = [loc EXCEPT ![r].out = XorSeq(body, loc[r].key)]
            /\ pc' = [pc EXCEPT ![r] = "rUnlock"]
-           /\ UNCHANGED <<wmu, rmu, lk, writeBuf, readBuf, keyInput, inbox, nW, nI, nJ, done, mon, hist>>
+           /\ UNCHANGED <<psk, wmu, rmu, lk, writeBuf, readBuf, keyInput, inbox, nW, nI, nJ, done, mon, hist>>
 
 RUnlock(r) == /\ pc[r] = "rUnlock"
               /\ rmu' = IF rmu = r THEN 0 ELSE rmu
               /\ mon' = MonStep(mon, ReadRetEv(r, Len(loc[r].out), loc[r].out), 0)
               /\ pc' = [pc EXCEPT ![r] = "idle"]
-              /\ UNCHANGED <<loc, wmu, lk, writeBuf, readBuf, keyInput, inbox, nW, nI, nJ, done, hist>>
+              /\ UNCHANGED <<psk, loc, wmu, lk, writeBuf, readBuf, keyInput, inbox, nW, nI, nJ, done, hist>>
 
 \* ------------------------------------------------------------------ environment: the inner socket's peer
 InjectValid == /\ nI < MaxI
@@ -165,7 +168,7 @@ InjectValid == /\ nI < MaxI
                      /\ mon' = MonStep(mon, WireEv("Inject", "iid", iid, wire, pay, [kind |-> "valid"]), 0)
                      /\ hist' = Append(hist, <<"I", Len(pay)>>)
                /\ nI' = nI + 1
-               /\ UNCHANGED <<pc, loc, wmu, rmu, lk, writeBuf, readBuf, keyInput, nW, nJ, done>>
+               /\ UNCHANGED <<psk, pc, loc, wmu, rmu, lk, writeBuf, readBuf, keyInput, nW, nJ, done>>
 
 InjectJunk == /\ nI < MaxI /\ nJ < MaxJ
               /\ \E jl \in JunkLens :
@@ -175,7 +178,7 @@ InjectJunk == /\ nI < MaxI /\ nJ < MaxJ
                       /\ mon' = MonStep(mon, WireEv("Inject", "iid", iid, wire, <<>>, [kind |-> "junk"]), 0)
                       /\ hist' = Append(hist, <<"J", jl>>)
               /\ nI' = nI + 1 /\ nJ' = nJ + 1
-              /\ UNCHANGED <<pc, loc, wmu, rmu, lk, writeBuf, readBuf, keyInput, nW, done>>
+              /\ UNCHANGED <<psk, pc, loc, wmu, rmu, lk, writeBuf, readBuf, keyInput, nW, done>>
 
 \* everything written and injected, every datagram consumed, nobody in the middle of a call
 Finish == /\ ~done /\ nW = MaxW /\ nI = MaxI /\ inbox = <<>>
@@ -183,7 +186,12 @@ Finish == /\ ~done /\ nW = MaxW /\ nI = MaxI /\ inbox = <<>>
           /\ \A r \in Readers : pc[r] \in {"idle", "rLock", "rInner"}
           /\ done' = TRUE
           /\ mon' = MonStep(mon, [ev |-> "End", scn |-> 0], 0)
-          /\ UNCHANGED <<pc, loc, wmu, rmu, lk, writeBuf, readBuf, keyInput, inbox, nW, nI, nJ, hist>>
+          /\ UNCHANGED <<psk, pc, loc, wmu, rmu, lk, writeBuf, readBuf, keyInput, inbox, nW, nI, nJ, hist>>
+
+\* the caller reuses the buffer its key came from; a socket that kept the slice instead of a copy now has another key
+CallerReuses == /\ ~KeyOwned /\ ~done /\ psk = K0
+                /\ psk' = 2
+                /\ UNCHANGED <<pc, loc, wmu, rmu, lk, writeBuf, readBuf, keyInput, inbox, nW, nI, nJ, done, mon, hist>>
 
 \* the readers are stuck for good: one of them waits for the mutex it holds itself (Go mutexes are not reentrant)
 Stall == /\ ~done /\ nW = MaxW /\ nI = MaxI
@@ -191,20 +199,20 @@ Stall == /\ ~done /\ nW = MaxW /\ nI = MaxI
          /\ \E r \in Readers : pc[r] = "rLock" /\ rmu = r
          /\ done' = TRUE
          /\ mon' = MonStep(mon, [ev |-> "ReadStalled", scn |-> 0], 0)
-         /\ UNCHANGED <<pc, loc, wmu, rmu, lk, writeBuf, readBuf, keyInput, inbox, nW, nI, nJ, hist>>
+         /\ UNCHANGED <<psk, pc, loc, wmu, rmu, lk, writeBuf, readBuf, keyInput, inbox, nW, nI, nJ, hist>>
 
 Init == /\ pc = [p \in Procs |-> "idle"]
         /\ loc = [p \in Procs |-> [pid |-> 0, pay |-> <<>>, key |-> <<>>, iid |-> 0, n |-> 0, out |-> <<>>]]
         /\ wmu = 0 /\ rmu = 0 /\ lk = 0
         /\ writeBuf = [salt |-> 0, body |-> [i \in 1..MaxLen |-> 0]]
-        /\ readBuf = <<>> /\ keyInput = 0 /\ inbox = <<>>
+        /\ readBuf = <<>> /\ keyInput = 0 /\ psk = K0 /\ inbox = <<>>
         /\ nW = 0 /\ nI = 0 /\ nJ = 0 /\ done = FALSE
         /\ mon = MonInit /\ hist = <<>>
 
 Next == \/ \E w \in Writers : WStart(w) \/ WLock(w) \/ OSalt(w) \/ OHash(w) \/ OXor(w) \/ WInner(w) \/ WUnlock(w)
         \/ \E r \in Readers : RStart(r) \/ RLock(r) \/ RInner(r) \/ DCheck(r) \/ DHash(r) \/ DXor(r) \/ RUnlock(r)
         \/ (~done /\ (InjectValid \/ InjectJunk))
-        \/ Finish \/ Stall
+        \/ Finish \/ Stall \/ CallerReuses
 
 Spec == Init /\ [][Next]_vars
 
@@ -214,5 +222,5 @@ MutexOk == /\ Cardinality({w \in Writers : pc[w] \in {"oLock", "oHash", "oXor", 
            /\ Cardinality({r \in Readers : pc[r] \in {"rInner", "dCheck", "dHash", "dXor", "rUnlock"}}) <= 1
            /\ Cardinality({p \in Procs : pc[p] \in {"oHash", "dHash"}}) <= 1
 PrintScn == done => PrintT(<<"SCN", ToJson([steps |-> hist])>>)
-View == <<pc, loc, wmu, rmu, lk, writeBuf, readBuf, keyInput, inbox, nW, nI, nJ, done, mon>>
+View == <<pc, loc, wmu, rmu, lk, writeBuf, readBuf, keyInput, psk, inbox, nW, nI, nJ, done, mon>>
 =============================================================================
